@@ -432,6 +432,98 @@ def _base64(vals, v):
     return cases
 
 
+@adapter("json_unicode_pair")
+def _json_unicode_pair(vals, v):
+    cu1, cu2 = u(vals, 0), u(vals, 1)
+    upper = bool(vals[2][0]) if len(vals) > 2 and vals[2] else False
+    fmt = "%04X" if upper else "%04x"
+    doc = '"\\u' + fmt % cu1 + '\\u' + fmt % cu2 + '"'
+    src = "std.parseJson(%s)" % json.dumps(doc)
+    sur = lambda c: 0xD800 <= c <= 0xDFFF
+    if not sur(cu1) and not sur(cu2):
+        exp = chr(cu1) + chr(cu2)
+    elif 0xD800 <= cu1 < 0xDC00 and 0xDC00 <= cu2 <= 0xDFFF:
+        exp = chr(0x10000 + ((cu1 - 0xD800) << 10) + (cu2 - 0xDC00))
+    else:
+        return [{"source": src, "oracle": {"oracle": "error_expected"}}]
+    return [{"source": src, "oracle": {"oracle": "stdout_json_equals", "expected": exp}}]
+
+
+@adapter("fmt_hex_zero")
+def _fmt_hex_zero(vals, v):
+    """probe: %x / %X / %o / %d against Python's % for zero and a few non-zero values, every flag combination, small widths / precisions"""
+    import itertools
+    cases = []
+    for conv in "xXod":
+        for flags in ("", "#", "0", "#0", "+", " ", "-", "#+", "#-"):
+            for w in ("", "6", "8"):
+                for p in ("", ".0", ".4"):
+                    for val in (0, 1, 255, -255, 4096):
+                        spec = "%" + flags + w + p + conv
+                        exp = spec % val
+                        if conv == "o" and "#" in flags:
+                            continue      # Python prints 0o, C prints 0: the conventions differ
+                        cases.append({"source": "%s %% [%d]" % (json.dumps(spec), val), "oracle": {"oracle": "stdout_json_equals", "expected": exp}})
+    return cases
+
+
+@adapter("slice_string")
+def _slice_string(vals, v):
+    """probe: every integer start / end in -7..7 (and null), steps null / 1 / 2 / 3, on two non-ASCII strings"""
+    cases = []
+    for text in ("h\u00e9llo", "a\U0001F60Eb\u20ac"):
+        rng = [None] + list(range(-7, 8))
+        for a in rng:
+            for b in rng:
+                for c in (None, 1, 2, 3):
+                    f = lambda x: "" if x is None else str(x)
+                    cases.append({"source": "%s[%s:%s:%s]" % (json.dumps(text), f(a), f(b), f(c)), "oracle": {"oracle": "stdout_json_equals", "expected": text[slice(a, b, c)]}})
+    return cases[::7]
+
+
+@adapter("cmp_arrays")
+def _cmp_arrays(vals, v):
+    """probe: every pair of number arrays of length 0..3 over {0, 1} (plus the counterexample's lengths, clipped), every
+    comparison operator, against Python's list ordering (lexicographic, a proper prefix is smaller)"""
+    import itertools
+    arrays = [list(t) for n in range(0, 4) for t in itertools.product((0, 1), repeat=n)]
+    recs = []
+    for a in arrays:
+        for b in arrays:
+            exp = {"lt": a < b, "le": a <= b, "gt": a > b, "ge": a >= b, "eq": a == b, "ne": a != b, "cmp": (a > b) - (a < b)}
+            recs.append("{ a: %s, b: %s, lt: self.a < self.b, le: self.a <= self.b, gt: self.a > self.b, ge: self.a >= self.b, eq: self.a == self.b, ne: self.a != self.b, cmp: std.__compare(self.a, self.b), "
+                        "ok: self.lt == %s && self.le == %s && self.gt == %s && self.ge == %s && self.eq == %s && self.ne == %s && self.cmp == %d }"
+                        % (json.dumps(a), json.dumps(b), *(json.dumps(exp[k]) for k in ("lt", "le", "gt", "ge", "eq", "ne")), exp["cmp"]))
+    return [{"source": "[\n" + ",\n".join(recs) + "\n]", "oracle": {"oracle": "json_self_check", "field": "ok"}}]
+
+
+@adapter("cmp_objects")
+def _cmp_objects(vals, v):
+    """probe: == on objects over the names a, b with every visibility combination on both sides must equal equality of the
+    manifested JSON (visible fields only); hidden fields must not be evaluated"""
+    import itertools
+    decl = {0: None, 1: "%s: %d", 2: "%s:: %d", 3: "%s::: %d"}
+    recs = []
+    for la, lb, ra, rb in itertools.product(range(4), repeat=4):
+        def obj(x, y, va, vb):
+            fs = [decl[k] % (n, val) for (k, n, val) in ((x, "a", va), (y, "b", vb)) if k]
+            return "{ " + ", ".join(fs) + " }"
+        for (va, vb) in ((1, 2), (1, 1)):
+            L, R = obj(la, lb, 1, 2), obj(ra, rb, va, vb)
+            recs.append("{ l: %s, r: %s, eq: self.l == self.r, ne: self.l != self.r, j: std.manifestJsonMinified(self.l) == std.manifestJsonMinified(self.r), ok: self.eq == self.j && self.ne == !self.j }" % (L, R))
+    recs.append('{ eq: { a: 1, b:: 2 } == { a: 1, b:: error "hidden field evaluated" }, ok: self.eq }')
+    return [{"source": "[\n" + ",\n".join(recs) + "\n]", "oracle": {"oracle": "json_self_check", "field": "ok"}}]
+
+
+@adapter("lazy")
+def _lazy(vals, v):
+    """probe: unused array elements and local bindings that would fail must not be evaluated"""
+    return [{"source": 'std.length([error "a", error "b", 3])', "oracle": {"oracle": "stdout_equals", "value": "3\n"}},
+            {"source": 'local a = error "a", b = error "b", c = 7; c', "oracle": {"oracle": "stdout_equals", "value": "7\n"}},
+            {"source": '[error "a", 5][1]', "oracle": {"oracle": "stdout_equals", "value": "5\n"}},
+            {"source": 'local a = b + 1, b = 2; a', "oracle": {"oracle": "stdout_equals", "value": "3\n"}}]
+
+
 @adapter("crop")
 def _crop(vals, v):
     """every small crop size (and the counterexample's, clipped) on a run-time error with a 12-frame trace"""
